@@ -6,6 +6,7 @@ import (
 	"encoding/base64"
 	"encoding/json"
 	"fmt"
+	"google.golang.org/protobuf/encoding/protowire"
 	"os"
 	"os/exec"
 	"path/filepath"
@@ -163,6 +164,24 @@ func genStoreDoc(t *rapid.T, id string) *sbom.Document {
 		doc.Metadata = &sbom.Metadata{}
 	}
 	doc.Metadata.Id = id
+	// "any document": one decoded from data of a newer schema carries fields this schema does not define
+	// (protobuf keeps them as unknown fields; proto.Equal compares them)
+	if rapid.IntRange(0, 4).Draw(t, "unknown") == 0 {
+		hx.Class("document_with_unknown_fields")
+		var raw []byte
+		raw = protowire.AppendTag(raw, 1999, protowire.BytesType)
+		raw = protowire.AppendString(raw, rapid.SampledFrom([]string{"x", "newer-schema", ""}).Draw(t, "unk"))
+		switch k := rapid.IntRange(0, 2).Draw(t, "unkwhere"); {
+		case k == 0 || doc.NodeList == nil || len(doc.NodeList.Nodes) == 0:
+			doc.ProtoReflect().SetUnknown(raw)
+		case k == 1:
+			doc.Metadata.ProtoReflect().SetUnknown(raw)
+		default:
+			if n := doc.NodeList.Nodes[0]; n != nil {
+				n.ProtoReflect().SetUnknown(raw)
+			}
+		}
+	}
 	return doc
 }
 
